@@ -21,7 +21,10 @@ RULE = ("histories over events {block directive in +-SKIP, +-REQUIRES(met), +-RE
         "want / with directive-looking text in a string / whitespace probe (passes only under IGNORE_WHITESPACE)} x inline "
         "directive {none or any of the ten}; all histories up to length L over a 20-event alphabet are enumerated "
         "(exhaustive=true for that sub-space), then random histories of length 5..12 over the full alphabet; every "
-        "history is also run with --options defaults and compared with the model started in that state.  Non-trivial = the "
+        "history is also run with --options defaults and compared with the model started in that state; block directives "
+        "are followed by nothing / blank prompt lines / a plain comment; a second family of random histories uses "
+        "conditions that are facts about the process when the directive is reached (--flag on sys.argv, env:VAR[==|!=], "
+        "platform / implementation / version tags) from seven base worlds, with statements that change the world.  Non-trivial = the "
         "history contains a directive and a statement; distinct by rendered text + defaults")
 ASSUMPTIONS = [
     "unmet requirements are 'module:' names that cannot exist; the met one is module:os",
@@ -29,6 +32,11 @@ ASSUMPTIONS = [
     "and is not generated",
     "REPORT_* style switches are not part of the property and are not compared by the shadow state",
     "--options=+REQUIRES(...) (finding F9, repaired) is generated like the boolean options, with met and unmet conditions",
+    "a REQUIRES condition is judged in the world (sys.argv, os.environ) as it is when the directive is reached, defaults "
+    "when the configuration is populated; a pending condition is removed by -REQUIRES only while it is unmet, a case that "
+    "cannot arise inside one doctest because the world only changes when a statement runs, i.e. when nothing is pending",
+    "module existence is cached by xdoctest for the life of the process (_MODNAME_EXISTS_CACHE); modules are not created "
+    "or removed during a history",
 ]
 NSHARDS = {'quick': 16, 'thorough': 16}
 
